@@ -3,6 +3,7 @@
 //! deltas), C20(b) (catch-up callback on multi-member deltas).
 
 use std::collections::BTreeMap;
+use std::future::Future;
 use std::sync::atomic::Ordering;
 use std::time::Duration;
 
@@ -119,6 +120,15 @@ pub struct PairCase {
     pub receiver: Option<CopySpec>,
     /// None: the real SYN-ACK (full budget); Some(b): facade delta under budget b.
     pub budget: Option<u32>,
+    /// The member is the receiver itself (e.g. a node restarted under the same id whose peers
+    /// still hold its previous state): the receiver's copy is its own namespace.
+    #[serde(default)]
+    pub self_member: bool,
+    /// The sender also holds another member that the receiver has removed after the dead-node
+    /// grace period (and remembers): its delta comes first and is ignored by the receiver, which
+    /// must still apply the rest.
+    #[serde(default)]
+    pub receiver_removed_other: bool,
 }
 
 /// Spec-level apply of a delta on a copy (written from ALGORITHM.md / README).
@@ -197,14 +207,64 @@ pub fn exec_pair(case: &PairCase, tally: &mut Tally) -> Result<(), Failure> {
     if case.receiver.is_none() {
         tally.label("receiver_unknown_member");
     }
+    if case.self_member {
+        tally.label("member_is_the_receiver_itself");
+    }
+    if case.receiver_removed_other {
+        tally.label("receiver_removed_another_member");
+    }
     Ok(())
 }
 
 fn exec_pair_inner(case: &PairCase) -> Result<PairFacts, Failure> {
-    let x = member_x();
+    if case.receiver_removed_other {
+        return crate::util::with_paused_runtime(async { exec_pair_body(case, true).await });
+    }
+    // No clock needed: run the body to completion on the spot.
+    let fut = exec_pair_body(case, false);
+    let mut fut = Box::pin(fut);
+    let waker = noop_waker();
+    let mut cx = std::task::Context::from_waker(&waker);
+    match fut.as_mut().poll(&mut cx) {
+        std::task::Poll::Ready(r) => r,
+        std::task::Poll::Pending => unreachable!("pair body only awaits when it advances the clock"),
+    }
+}
+
+fn noop_waker() -> std::task::Waker {
+    use std::task::{RawWaker, RawWakerVTable, Waker};
+    fn raw() -> RawWaker {
+        fn no(_: *const ()) {}
+        fn clone(_: *const ()) -> RawWaker {
+            raw()
+        }
+        static VT: RawWakerVTable = RawWakerVTable::new(clone, no, no, no);
+        RawWaker::new(std::ptr::null(), &VT)
+    }
+    unsafe { Waker::from_raw(raw()) }
+}
+
+async fn exec_pair_body(case: &PairCase, with_clock: bool) -> Result<PairFacts, Failure> {
+    let fd20 = FdCfg { dead_grace_ms: 20_000, ..FdCfg::default() };
+    let mut s = build_node(&simple_id("s", 0, 7601), "c", Duration::from_secs(3600), &fd20, false, 0).chitchat;
+    let mut r = build_node(&simple_id("r", 0, 7602), "c", Duration::from_secs(3600), &fd20, false, 0).chitchat;
+    let x = if case.self_member { WId::from_real(&simple_id("r", 0, 7602)) } else { member_x() };
     let xr = x.to_real();
-    let mut s = fresh_node("s", 7601, false).chitchat;
-    let mut r = fresh_node("r", 7602, false).chitchat;
+    if case.receiver_removed_other && with_clock {
+        // Member `gone`: known to both; the receiver declares it dead and removes it after the
+        // grace period; the sender never evaluates it and keeps advertising it (same heartbeat).
+        let gone = WId::v4("gone", 0, 7555);
+        let spec = CopySpec { gc: 0, max: 1, entries: vec![EntryS { key: 3, version: 1, status: 0 }] };
+        if install_copy(&mut s, &gone, &spec, 5).is_err() || install_copy(&mut r, &gone, &spec, 5).is_err() {
+            return vio("C14/setup", "cannot install the extra member".into());
+        }
+        r.verif_update_nodes_liveness();
+        crate::util::advance_ns(20_000 * 1_000_000 + 1).await;
+        r.verif_update_nodes_liveness();
+        if r.node_state(&gone.to_real()).is_some() {
+            return vio("C14/setup", "extra member not removed at the receiver".into());
+        }
+    }
     if let Err(e) = guard(|| install_copy(&mut s, &x, &case.sender, 5)).map_err(|p| p.describe()).and_then(|r| r) {
         return vio("C14/honest-delta-not-applied", format!("building the sender copy {:?}: {e}", case.sender));
     }
@@ -428,7 +488,7 @@ pub fn run_c14(ctx: &Ctx, report: &mut Report) {
                     budgets.extend(truncation_budgets(&sender, from).into_iter().map(Some));
                 }
                 for b in budgets {
-                    let case = PairCase { sender: sender.clone(), receiver: receiver.clone(), budget: b };
+                    let case = PairCase { sender: sender.clone(), receiver: receiver.clone(), budget: b, self_member: false, receiver_removed_other: false };
                     trials += 1;
                     exec_pair(&case, tally).map_err(|f| (f, serde_json::to_value(&case).unwrap()))?;
                 }
@@ -460,8 +520,12 @@ fn copy_strategy(vmax: u64, max_entries: usize) -> impl Strategy<Value = CopySpe
 
 fn pair_strategy() -> impl Strategy<Value = PairCase> {
     let vmax = prop_oneof![3 => Just(12u64), 1 => Just(1_000_000u64)];
-    vmax.prop_flat_map(|vmax| (copy_strategy(vmax, 4), proptest::option::weighted(0.85, copy_strategy(vmax, 4)), proptest::option::weighted(0.4, 100u32..600)))
-        .prop_map(|(sender, receiver, budget)| PairCase { sender, receiver, budget })
+    vmax.prop_flat_map(|vmax| (copy_strategy(vmax, 4), proptest::option::weighted(0.85, copy_strategy(vmax, 4)), proptest::option::weighted(0.4, 100u32..600), prop_oneof![3 => Just(false), 1 => Just(true)], prop_oneof![3 => Just(false), 1 => Just(true)]))
+        .prop_map(|(sender, receiver, budget, self_member, receiver_removed_other)| {
+            // a node always knows itself
+            let receiver = if self_member { Some(receiver.unwrap_or(CopySpec { gc: 0, max: 0, entries: vec![] })) } else { receiver };
+            PairCase { sender, receiver, budget, self_member, receiver_removed_other }
+        })
 }
 
 pub fn replay_c14(ctx: &Ctx, sub: &str, case: &serde_json::Value) -> SubResult {
